@@ -21,6 +21,23 @@ Proof.
   exists s', n, outs. split; [exact E | exact Hn].
 Qed.
 
+(** the same through non-ramped ratio changes: in every history of valid calls and accepted ratio steps that stay outside
+    the two recorded defect classes (see C03_fast_in_steps_safe_R), every call consumes chunk_size frames and writes
+    at most the output_frames_next() advertised just before it.  [call_ok C (a, b, adv)] is  a = C /\ 0 <= b <= adv. *)
+Theorem C04_fast_in_steps_counts_R : forall d ops rc (s : @astate CR SR (@FastFixedIn CR)),
+  fi_wfs d rc s -> steps_compatible d rc (FastInR.ratio s) ops ->
+  forall s' log, fi_run_ops d s ops = Ok (s', log) -> Forall (call_ok (Cz s)) log.
+Proof.
+  intros d ops rc s W Hc s' log E. generalize (fi_history_steps_R d ops rc s W Hc). rewrite E. intros (_ & _ & H). exact H.
+Qed.
+
+Theorem C04_sinc_in_steps_counts_R : forall env ops rc (s : @astate CR SR (@SincFixedIn CR)),
+  si_wfs env rc s -> ssteps_compatible (sL s) rc (sratio s) ops ->
+  forall s' log, si_run_ops env s ops = Ok (s', log) -> Forall scall_ok log.
+Proof.
+  intros env ops rc s W Hc s' log E. generalize (si_history_steps_R env ops rc s W Hc). rewrite E. intros (_ & _ & H). exact H.
+Qed.
+
 (** FastFixedOut: consumes exactly input_frames_next(), produces exactly output_frames_next(). *)
 Theorem C04_fast_out_counts_R : forall d blen (s : @astate CR SR (@FastFixedOut CR)) wi wo m,
   fo_wf blen s -> a_precheck (@fo_arch CR SR d) s wi wo m = Ok tt ->
@@ -104,3 +121,5 @@ Print Assumptions C04_sinc_out_counts_R.
 Print Assumptions C04_fft_in_counts_R.
 Print Assumptions C04_fft_out_counts_R.
 Print Assumptions C04_fft_inout_counts.
+Print Assumptions C04_fast_in_steps_counts_R.
+Print Assumptions C04_sinc_in_steps_counts_R.
